@@ -12,7 +12,12 @@
 (* of dump() for "open"/"close") and doc = the document-level observation  *)
 (* (every other field byte-identical, no error element, one paragraph with *)
 (* the same field names).  A trace may contain several with-blocks:        *)
-(* `saved` is the list the document holds.                                 *)
+(* `saved` is the list the document holds, `vals` the list of the list     *)
+(* OBJECT: "open" makes a new object from the document, "reenter" enters   *)
+(* the same object again (it keeps its list over close/abort/refusals).    *)
+(* e.bad: the text handed in is not a single item -- refused, no effect.   *)
+(* vfmtx/vfmtxf install a caller's formatter that raises: leaving may then *)
+(* end with "Fault" (the caller's exception), nothing is written.          *)
 (*                                                                         *)
 (* Not promised by the statement, hence accepted either way (the list must *)
 (* stay as it is): remove/replace of an absent value, append_newline after *)
